@@ -1,7 +1,7 @@
 (* C04 — a crash at any write can be recovered exactly by a reorg to a durable height.
    Statements only.  RocksDB is modelled as a map with atomic single-key writes of which a
    crash keeps a prefix (torn writes, fsync and power loss are RocksDB's contract). *)
-From Brc.Model Require Import Base History Table BlockTable Store Crash.
+From Brc.Model Require Import Base History Table BlockTable Store Crash TieCrash.
 From Brc.Proofs Require Import HistoryP KvP TableP BlockTableP StoreP CrashP.
 From BrcGen Require Import Consts.
 From Coq Require Import Sorting.Permutation.
@@ -280,3 +280,16 @@ Proof.
   repeat (destruct Hx as [<- | Hx]; [vm_compute; reflexivity|]). destruct Hx.
 Qed.
 Print Assumptions C04_same_tables_everywhere.
+
+(* The table order the store-level tie (Model/TieCrash.v) expects from the recorded writes of
+   commit_changes / reorg is the reflected one: block tables first (heights first) then the
+   versioned tables for a commit; versioned tables then block tables (heights last) for the
+   roll-back phase of a reorg. *)
+Definition vname (i : N) : string := nth (N.to_nat i) vtable_names EmptyString.
+
+Theorem C04_tie_table_order_is_reflected :
+  commit_tables = btable_names ++ map vname commit_vorder /\
+  reorg_tables = map vname reorg_vorder ++ [nth 1 btable_names EmptyString; nth 2 btable_names EmptyString;
+                                            nth 0 btable_names EmptyString].
+Proof. split; vm_compute; reflexivity. Qed.
+Print Assumptions C04_tie_table_order_is_reflected.
